@@ -130,7 +130,10 @@ $(BUILD)/props/C20.o: $(SRC)/props/C20.cpp $(wildcard $(SRC)/common/*.hpp)
 $(FWBUILD)/vsys_mt.o: $(SRC)/vsys/vsys_mt.c
 	@mkdir -p $(dir $@)
 	$(CC) -g -O1 -fsanitize=thread -I$(SRC) -c $< -o $@
-$(BUILD)/props/C20: $(BUILD)/props/C20.o $(FWBUILD)/fw_main_tsan.o $(FWBUILD)/vsys_mt.o $(BUILD)/lib-tsan/libreproc.o | $(FWBUILD)/puppet
+$(BUILD)/h/harness_tsan.o: $(SRC)/common/harness.cpp $(wildcard $(SRC)/common/*.hpp) $(SRC)/common/proto.h
+	@mkdir -p $(dir $@)
+	$(CXX) -std=gnu++17 -g -O1 -fsanitize=thread -I$(SRC) -I$(VERIF_REPO)/reproc/include -c $< -o $@
+$(BUILD)/props/C20: $(BUILD)/props/C20.o $(FWBUILD)/fw_main_tsan.o $(FWBUILD)/vsys_mt.o $(BUILD)/h/harness_tsan.o $(BUILD)/lib-tsan/libreproc.o | $(FWBUILD)/puppet
 	$(CXX) -fsanitize=thread -o $@ $^ -lrapidcheck -lpthread
 
 prop-%: $(BUILD)/props/%
